@@ -27,7 +27,7 @@ THEOREMS = [
     "Privacy.default_meaning", "Privacy.exact_wins", "Privacy.last_pattern_wins", "Privacy.default_applies",
     "Privacy.precedence_partial", "Privacy.precedence_counterexample",
     "Privacy.parseRule_wellFormed", "Privacy.cli_rules_wellFormed", "Privacy.precedence_cli_partial",
-    "Privacy.precedence_counterexample_kindNone", "Privacy.precedence_counterexample_underscores", "Privacy.default_counterexample",
+    "Privacy.precedence_counterexample_kindNone", "Privacy.underscores_private", "Privacy.default_counterexample_before_2e9a6af",
     "Privacy.defaultLevel_eq_manual",
     "Privacy.defaultOf_meaning", "Privacy.main_module_rule_applies", "Privacy.main_module_counterexample_before_c8d85b0",
     "Privacy.cli_never_raises", "Privacy.cli_rejects_backwards_range",
@@ -38,11 +38,10 @@ PARTIAL = {
                             "excluded = patterns with a bracket expression holding a descending range (Glob.wellFormed = false); "
                             "witness Glob.qnmatch_counterexample ([b-a])",
     "Privacy.precedence_partial": "arbitrary rule lists (options.privacy filled by hand): excluded = lists holding a pattern with a "
-                                  "descending range (Privacy.precedence_counterexample), objects whose kind is None "
-                                  "(precedence_counterexample_kindNone, open findings kind-none-hidden:*) and the names '__', '___' "
-                                  "(precedence_counterexample_underscores, open finding default:underscore-only-name-public)",
-    "Privacy.precedence_cli_partial": "every --privacy list the option parser accepts; excluded = objects whose kind is None and the "
-                                      "names '__', '___' (same witnesses)",
+                                  "descending range (Privacy.precedence_counterexample) and objects whose kind is None "
+                                  "(precedence_counterexample_kindNone, open finding kind-none-hidden:type-field-only)",
+    "Privacy.precedence_cli_partial": "every --privacy list the option parser accepts, every name; excluded = objects whose kind is None "
+                                      "(since 6778a0a only @type-only pseudo attributes)",
     "Privacy.precedence_effective_partial": "the same for configuration file + command line",
     "Privacy.cache_transparent": "hypothesis: two queried objects with the same qualified name have the same name and kind "
                                  "(the cache is keyed by qualified name only); witness Privacy.cache_counterexample",
@@ -64,7 +63,7 @@ ASSUMPTIONS = [
     "inside [seq] the manual does not define ranges; the oracle and Glob.spec read lo-hi as a code-point range (fnmatch convention), "
     "a descending range as empty, an unclosed [ as a literal, and the first character after [ or [! as part of seq even when it is ]",
     "dunder = the manual's own pattern __*__ (two underscores, anything, two underscores: at least four characters); "
-    "'__' and '___' are not dunders (open finding default:underscore-only-name-public), '____' is",
+    "'__' and '___' are not dunders (the code agrees since 2e9a6af: Privacy.defaultLevel_eq_manual), '____' is",
     "the artificial kind-None attribute of the hand-built tree (p.m.k, kind set to None by the harness) is compared with the model "
     "but not judged by the oracle; kind-None objects made by the real AST builder (privacy-source stream) are judged",
     "the oracle's default includes 'modules named __main__ are PRIVATE' exactly when docs/source/customize.rst of the tree under "
